@@ -179,6 +179,16 @@ MeasEnd(f, p) ==
   /\ pwm' = [pwm EXCEPT ![f] = p]
   /\ UNCHANGED <<mode, orig, reg, ctx, proc, sigs, cnt, faults, starts, had>>
 
+\* a read or write that the measurement depends on fails: the initialization sequence ends with an error (nothing is attached
+\* or stored, the mutex is released) and Run hands the fan back before it returns - "restore after failed initialisation"
+MeasFail(f) ==
+  /\ Running /\ ph[f] = "Meas" /\ faults < MaxFaults
+  /\ faults' = faults + 1
+  /\ ana' = [ana EXCEPT ![f] = FALSE]
+  /\ mtx' = IF mtx = f THEN "none" ELSE mtx
+  /\ ph' = [ph EXCEPT ![f] = "Rest1"]
+  /\ UNCHANGED <<pwm, mode, orig, reg, ctx, proc, sigs, db, cnt, starts, discarded, had>>
+
 \* Run 174: computePwmMap under the mutex (file/cmd fans sweep here on their first start)
 MapLock(f) ==
   /\ Running /\ ph[f] = "Map"
@@ -302,7 +312,7 @@ CliInit(f) ==
 
 FanStep(f) ==
   \/ Capture(f) \/ WaitDone(f) \/ Load(f) \/ AnaLock(f) \/ AnaMap(f)
-  \/ MeasBegin(f) \/ MapLock(f) \/ Attached(f) \/ LoopStart(f)
+  \/ MeasBegin(f) \/ MeasFail(f) \/ MapLock(f) \/ Attached(f) \/ LoopStart(f)
   \/ (\E p \in OrigPwms : SweepEnd(f, p) \/ MeasEnd(f, p) \/ MapDone(f, p) \/ Cycle(f, p))
   \/ CycleWriteFault(f) \/ ControlError(f) \/ Cancelled(f)
   \/ \E o \in Outcomes : Restore1(f, o) \/ Restore2(f, o)
